@@ -416,7 +416,7 @@ func main() {
 		Property: "C20",
 		Level:    "model_checking",
 		Rule:     "handler tables (per kind 0..3 handlers x predicate{nil,true,false,id==a} x outcome{ok,error}; mixed tables with <=1 handler per kind) x inbound sequences (length<=3 over kind x id{a,b}) enumerated as data choices; schedules with <= bound deviations inside the dispatch window; distinct outcome = distinct observation log",
-		Assume: []string{"in-process transport only (dispatch logic is transport independent)", "sequentially consistent scheduler; code between visible operations is atomic"},
+		Assume:   []string{"in-process transport only (dispatch logic is transport independent)", "sequentially consistent scheduler; code between visible operations is atomic"},
 		Scenarios: []harness.Scenario{
 			mk("server/one-kind/h2/len2", serverBody("one", 2, 2), 0, -1),
 			mk("server/mixed4/len2", serverBody("mixed4", 1, 2), 0, -1),
